@@ -180,3 +180,29 @@
         core::mem::forget(p);
         core::mem::forget(d);
     }
+
+    /// C06/C01: the reader-side bookkeeping fed by a VALID HEARTBEAT never overflows.  For a proxy in an arbitrary
+    /// well-formed state and every (first_sn, last_sn) a decoded HEARTBEAT can carry (first_sn >= 1, last_sn >= first_sn - 1,
+    /// the postcondition of the HEARTBEAT decoder obligation) the handler's sequence missing_changes_update(last_sn),
+    /// lost_changes_update(first_sn), missing_changes().count(), available_changes_max() runs without arithmetic overflow,
+    /// keeps the proxy well-formed and available_changes_max >= first_sn - 1.
+    /// @props C06 C01
+    /// @kind proof
+    /// @tier quick
+    /// @fn RtpsWriterProxy::missing_changes_update, RtpsWriterProxy::lost_changes_update, RtpsWriterProxy::missing_changes, RtpsWriterProxy::available_changes_max
+    #[cfg_attr(kani, kani::proof)]
+    fn c06_proxy_bookkeeping_after_valid_heartbeat_no_overflow() {
+        let mut p = any_proxy_with(Vec::new());
+        let first_sn: i64 = kani::any();
+        let last_sn: i64 = kani::any();
+        kani::assume(first_sn >= 1 && last_sn >= first_sn - 1);
+        p.missing_changes_update(last_sn);
+        p.lost_changes_update(first_sn);
+        let missing = p.missing_changes().count();
+        let amax = p.available_changes_max();
+        assert!(amax >= first_sn - 1, "C01: everything below first_sn counts as lost, i.e. not missing");
+        assert!(p.first_available_seq_num > i64::MIN && p.highest_received_change_sn < i64::MAX, "wf preserved");
+        kani::cover!(missing > 0);
+        kani::cover!(missing == 0);
+        core::mem::forget(p);
+    }
